@@ -208,6 +208,14 @@ func Random(r *common.Rand, maxLen int) *Program {
 		p.TxVersion = []uint32{1, 2, 0}[r.Intn(3)]
 		p.InSeq = []uint32{0, 1, 0xffffffff, 0xfffffffe, 1 << 31, 1 << 22, 1<<22 | 5, 0xffff}[r.Intn(8)]
 		p.Kind = "random-tx"
+		if p.HasPrev {
+			// with a full transaction context the signature opcodes are live; they are C06's subject and not
+			// part of the signature-free model these programs are compared with
+			for _, op := range []byte{0xac, 0xad, 0xae, 0xaf} {
+				p.Lock = replaceOpcode(p.Lock, op, 0x61)
+				p.Unlock = replaceOpcode(p.Unlock, op, 0x61)
+			}
+		}
 	}
 	return p.Fix()
 }
